@@ -131,7 +131,7 @@ class C17(c16.SamplerProp):
             return impl
         d0 = digest(impl)
         # the same caller-owned objects, another construct-and-sample in between
-        other = dict(case, seed=case['seed'] + 17, target=max(case['target'], 60))
+        other = dict(case, seed=case['seed'] + 17)
         c16.run_sampler(other, objects)
         again = c16.run_sampler(case, objects)
         det = [digest(again) == d0]
